@@ -316,6 +316,9 @@ func (r *runner) barOptions(i int) (mpb.BarFiller, []mpb.BarOption) {
 		nfill++
 		x.Fills = append(x.Fills, FillEv{Step: mcrt.Step(), Bar: i, Cur: st.Current, Tot: st.Total, Refill: st.Refill,
 			Completed: st.Completed, Aborted: st.Aborted, Avail: st.AvailableWidth})
+		if st.Completed || st.Aborted {
+			x.TermFills[i]++
+		}
 		if bs.FillErrAt != 0 && nfill >= bs.FillErrAt {
 			if x.FaultStep == 0 {
 				x.FaultStep = mcrt.Step()
@@ -351,6 +354,19 @@ func (r *runner) barOptions(i int) (mpb.BarFiller, []mpb.BarOption) {
 	}
 	if bs.After > 0 {
 		opts = append(opts, mpb.BarQueueAfter(r.bars[bs.After-1]))
+		pred := bs.After - 1
+		// a filler middleware runs inside the container goroutine while it executes the Add request, so it
+		// sees exactly whether the predecessor's final frame has already been flushed at that moment
+		opts = append(opts, mpb.BarFillerMiddleware(func(base mpb.BarFiller) mpb.BarFiller {
+			if x.TermFills[pred] >= 2 {
+				x.Event("queue:late-successor")
+			}
+			x.Queued[pred]++
+			if x.Queued[pred] > 1 {
+				x.Event("queue:two-successors")
+			}
+			return base
+		}))
 	}
 	if bs.ExtRows > 0 || bs.ExtErrAt > 0 {
 		next := 0
